@@ -154,8 +154,8 @@ pub fn find(cache: &Path, key: &str) -> Result<Option<Metadata>> {
         .fold(None, |acc, entry| {
             if entry.key == key {
                 if let Some(integrity) = entry.integrity {
-                    let integrity: Integrity = match integrity.parse() {
-                        Ok(sri) => sri,
+                    let integrity: Integrity = match parse_entry_integrity(&integrity) {
+                        Some(sri) => sri,
                         _ => return acc,
                     };
                     Some(Metadata {
@@ -186,8 +186,8 @@ pub async fn find_async(cache: &Path, key: &str) -> Result<Option<Metadata>> {
         .fold(None, |acc, entry| {
             if entry.key == key {
                 if let Some(integrity) = entry.integrity {
-                    let integrity: Integrity = match integrity.parse() {
-                        Ok(sri) => sri,
+                    let integrity: Integrity = match parse_entry_integrity(&integrity) {
+                        Some(sri) => sri,
                         _ => return acc,
                     };
                     Some(Metadata {
@@ -279,7 +279,7 @@ pub fn ls(cache: &Path) -> impl Iterator<Item = Result<Metadata>> {
                     if let Some(i) = se.integrity {
                         Some(Metadata {
                             key: se.key,
-                            integrity: i.parse().unwrap(),
+                            integrity: parse_entry_integrity(&i)?,
                             time: se.time,
                             size: se.size,
                             metadata: se.metadata,
@@ -316,6 +316,60 @@ fn hash_entry(key: &str) -> String {
     let mut hasher = Sha256::new();
     hasher.update(key);
     hex::encode(hasher.finalize())
+}
+
+/// Parses the integrity string of an index entry. The content path is built
+/// from the hex form of the digest, so an entry whose integrity does not
+/// parse, or whose digests are not well-formed base64 of at least the three
+/// bytes the path is split into, cannot name a content file: it is treated
+/// like any other invalid entry instead of panicking in path construction.
+fn parse_entry_integrity(raw: &str) -> Option<Integrity> {
+    let sri: Integrity = raw.parse().ok()?;
+    if sri.hashes.is_empty() {
+        return None;
+    }
+    for hash in &sri.hashes {
+        if base64_decoded_len(&hash.digest)? < 3 {
+            return None;
+        }
+    }
+    Some(sri)
+}
+
+/// Length of the data encoded by a canonical, padded, standard-alphabet
+/// base64 string, or `None` if the string is not one.
+fn base64_decoded_len(encoded: &str) -> Option<usize> {
+    let bytes = encoded.as_bytes();
+    if bytes.is_empty() || bytes.len() % 4 != 0 {
+        return None;
+    }
+    let padding = bytes.iter().rev().take_while(|&&b| b == b'=').count();
+    if padding > 2 {
+        return None;
+    }
+    let symbols = &bytes[..bytes.len() - padding];
+    let value = |b: u8| match b {
+        b'A'..=b'Z' => Some(b - b'A'),
+        b'a'..=b'z' => Some(b - b'a' + 26),
+        b'0'..=b'9' => Some(b - b'0' + 52),
+        b'+' => Some(62),
+        b'/' => Some(63),
+        _ => None,
+    };
+    let mut last = 0;
+    for &b in symbols {
+        last = value(b)?;
+    }
+    // The bits of the last symbol that do not belong to a full byte are zero.
+    let unused_bits_mask = match padding {
+        1 => 0b11,
+        2 => 0b1111,
+        _ => 0,
+    };
+    if last & unused_bits_mask != 0 {
+        return None;
+    }
+    Some(symbols.len() * 6 / 8)
 }
 
 fn now() -> u128 {
